@@ -13,6 +13,7 @@ import (
 	"rscheck/cfgq"
 	"rscheck/core"
 	"rscheck/driver"
+	"rscheck/lin"
 	"rscheck/pat"
 	"rscheck/rules/c07"
 )
@@ -187,121 +188,50 @@ func (x *rx) eleField(e ast.Expr, ele types.Object, name string) bool {
 	return ok && core.IsFieldNamed(x.info, sel, "KeyNode", name) && core.ObjOf(x.info, sel.X) == ele
 }
 
-// intCmp matches the fact `<lhs> op k` (either orientation for ==/!=) and returns whether it establishes equality (eq) or inequality with k.
+// intCmp decides what the fact f says about `<lhs> == k`: (true, true) it is established, (false, true) its
+// negation is established, (_, false) nothing. The comparison is read in linear normal form (package lin), so
+// `x == k`, `k == x`, `x+2 == 0`, `!(x != k)`, a case arm over another constant, `x >= 0` (for negative k) ... are
+// all understood; named constants are folded by go/types.
 func intCmp(info *types.Info, f cfgq.Fact, isLHS func(ast.Expr) bool, k int64) (eq, ok bool) {
-	be, isB := ast.Unparen(f.Expr).(*ast.BinaryExpr)
-	if !isB || be.Op != token.EQL && be.Op != token.NEQ {
+	var atom ast.Expr
+	ast.Inspect(f.Expr, func(n ast.Node) bool {
+		if e, isE := n.(ast.Expr); isE && atom == nil && isLHS(e) {
+			atom = e
+		}
+		return atom == nil
+	})
+	if atom == nil {
 		return false, false
 	}
-	a, b := be.X, be.Y
-	if !isLHS(a) {
-		a, b = b, a
-	}
-	v, isC := core.IntConst(info, b)
-	if !isLHS(a) || !isC {
+	cmp, isCmp := lin.CmpOf(info, f.Expr, f.Val)
+	if !isCmp || len(cmp.F.Coef) != 1 {
 		return false, false
 	}
-	if v != k { // x == k' with k' != k establishes x != k (case arms of a switch over other constants)
-		return false, (be.Op == token.EQL) == f.Val
+	a := cmp.F.Coef[lin.Key(info, atom)]
+	if a != 1 && a != -1 {
+		return false, false
 	}
-	return (be.Op == token.EQL) == f.Val, true
-}
-
-// ---- R1
-
-func (x *rx) access() {
-	pk := x.fn["exec"].Pkg
-	want := map[string]map[string]string{
-		"keyChan":    {"send": "doFetch", "range": "writer", "close": "fetcher", "make": "exec"},
-		"resultChan": {"send": "writeSend", "range": "receiver", "close": "writer", "make": "exec"},
-	}
-	for _, ch := range []string{"keyChan", "resultChan"} {
-		uses := map[string][]string{}
-		for _, file := range pk.Syntax {
-			for _, d := range file.Decls {
-				fd, ok := d.(*ast.FuncDecl)
-				if !ok || fd.Body == nil {
-					continue
-				}
-				var stack []ast.Node
-				ast.Inspect(fd.Body, func(n ast.Node) bool {
-					if n == nil {
-						stack = stack[:len(stack)-1]
-						return false
-					}
-					stack = append(stack, n)
-					e, ok := n.(*ast.SelectorExpr)
-					if !ok || !core.IsFieldNamed(x.info, e, exe, ch) || len(stack) < 2 {
-						return true
-					}
-					kind := "other"
-					switch p := stack[len(stack)-2].(type) {
-					case *ast.SendStmt:
-						if p.Chan == ast.Expr(e) {
-							kind = "send"
-						}
-					case *ast.RangeStmt:
-						if p.X == ast.Expr(e) {
-							kind = "range"
-						}
-					case *ast.CallExpr:
-						if b, ok := core.Callee(x.info, p).(*types.Builtin); ok {
-							switch b.Name() {
-							case "close":
-								kind = "close"
-							case "len", "cap":
-								kind = "len"
-							}
-						}
-					case *ast.AssignStmt:
-						if len(p.Lhs) == 1 && p.Lhs[0] == ast.Expr(e) && len(p.Rhs) == 1 {
-							if call, ok := p.Rhs[0].(*ast.CallExpr); ok {
-								if b, ok := core.Callee(x.info, call).(*types.Builtin); ok && b.Name() == "make" {
-									kind = "make"
-								}
-							}
-						}
-					}
-					uses[kind] = append(uses[kind], fd.Name.Name)
-					return true
-				})
+	c := cmp.F.Const // a*x + c op 0
+	switch cmp.Op {
+	case token.EQL: // x == -c/a
+		return -c*a == k, true
+	case token.NEQ:
+		if -c*a == k {
+			return false, true
+		}
+	case token.LSS, token.LEQ:
+		strict := cmp.Op == token.LSS
+		if a == 1 { // x < -c  (or <=)
+			if k > -c || strict && k == -c {
+				return false, true
+			}
+		} else { // -x + c < 0  <=>  x > c (or >=)
+			if k < c || strict && k == c {
+				return false, true
 			}
 		}
-		bad := ""
-		for kind, where := range want[ch] {
-			if len(uses[kind]) != 1 || uses[kind][0] != where {
-				bad += fmt.Sprintf(" %s in %v (expected once in %s);", kind, uses[kind], where)
-			}
-		}
-		if len(uses["other"]) > 0 {
-			bad += fmt.Sprintf(" unclassified uses in %v;", uses["other"])
-		}
-		if bad != "" {
-			x.c.Undecidedf("R1.access", ch, token.NoPos, "who-may-access table of %s differs from the recognised pipeline:%s", ch, bad)
-		} else {
-			x.c.Okf("R1.access", ch, token.NoPos, "%s: made in exec, sent only in %s, ranged only in %s, closed only in %s", ch, want[ch]["send"], want[ch]["range"], want[ch]["close"])
-		}
 	}
-	// the sending helpers are called only from the closer of their channel
-	for helper, owner := range map[string]string{"doFetch": "fetcher", "writeSend": "writer"} {
-		okAll := true
-		for _, file := range pk.Syntax {
-			for _, d := range file.Decls {
-				fd, isF := d.(*ast.FuncDecl)
-				if !isF || fd.Body == nil || x.info.Defs[fd.Name] == types.Object(x.fn[owner].Obj) {
-					continue
-				}
-				for range core.CallsAll(fd.Body, x.info, func(_ *ast.CallExpr, o types.Object) bool { return o == types.Object(x.fn[helper].Obj) }) {
-					okAll = false
-				}
-			}
-		}
-		if okAll {
-			x.c.Okf("R1.callers", helper, x.fn[helper].Decl.Pos(), "%s is called only from %s (which closes the channel after its last call)", helper, owner)
-		} else {
-			x.c.Undecidedf("R1.callers", helper, x.fn[helper].Decl.Pos(), "%s is called outside %s: sends may race with the close", helper, owner)
-		}
-	}
+	return false, false
 }
 
 func (x *rx) chain() {
@@ -472,152 +402,6 @@ func (x *rx) exec() {
 
 // ---- R2/R3 writer
 
-// wscope is a function body in which the element taken from keyChan is known under the name ele: the writer's
-// loop, or a same-package helper that is handed the element (parameter bound to the argument).
-type wscope struct {
-	g    *cfgq.Graph
-	ele  types.Object
-	root ast.Node
-}
-
-// wprop is a property of the element's treatment that a node establishes when executed ("pttl was set to 0") or
-// that an edge establishes when taken ("pttl != -1").
-type wprop struct {
-	node func(sc *wscope, n ast.Node) bool
-	fact func(sc *wscope, f cfgq.Fact) bool
-}
-
-// sub follows a call that hands the element to a function of this package.
-func (x *rx) sub(sc *wscope, call *ast.CallExpr) *wscope {
-	idx := -1
-	for i, a := range call.Args {
-		if core.ObjOf(x.info, a) == sc.ele {
-			idx = i
-		}
-	}
-	if idx < 0 {
-		return nil
-	}
-	f := core.CalleeFunc(x.info, call)
-	if f == nil {
-		return nil // builtin (append)
-	}
-	h := x.c.FnOf(f)
-	if h == nil || h.Decl.Body == nil || h.Pkg != x.fn["writer"].Pkg {
-		if f.Pkg() != nil && strings.HasPrefix(f.Pkg().Path(), core.Module) && !strings.HasSuffix(f.Pkg().Path(), "/log") {
-			x.opaque = true
-		}
-		return nil
-	}
-	i := 0
-	for _, fl := range h.Decl.Type.Params.List {
-		for _, nm := range fl.Names {
-			if i == idx {
-				x.c.Functions[h.Name()] = true
-				return &wscope{g: cfgq.Of(x.c.Program, h), ele: x.info.Defs[nm], root: h.Decl.Body}
-			}
-			i++
-		}
-	}
-	return nil
-}
-
-const maxFollow = 2
-
-// nodeHas: executing n establishes p, directly or because n calls a helper all of whose normal returns do.
-func (x *rx) nodeHas(sc *wscope, p wprop, n ast.Node, depth int) bool {
-	if p.node != nil && p.node(sc, n) {
-		return true
-	}
-	if depth >= maxFollow {
-		return false
-	}
-	for _, call := range cfgq.ExecCalls(n) {
-		if hs := x.sub(sc, call); hs != nil && x.summary(hs, p, nil, depth+1) {
-			return true
-		}
-	}
-	return false
-}
-
-// edgeHas: leaving b through successor s establishes p: by a fact of the condition, or because the condition is
-// the outcome of a predicate helper all of whose returns with that outcome establish p.
-func (x *rx) edgeHas(sc *wscope, p wprop, b *cfg.Block, s int, depth int) bool {
-	return c07.EdgeFact(sc.g, b, s, func(f cfgq.Fact) bool {
-		if p.fact != nil && p.fact(sc, f) {
-			return true
-		}
-		call, ok := ast.Unparen(f.Expr).(*ast.CallExpr)
-		if !ok || depth >= maxFollow {
-			return false
-		}
-		hs := x.sub(sc, call)
-		val := f.Val
-		return hs != nil && x.summary(hs, p, &val, depth+1)
-	})
-}
-
-// summary: every path of the helper to a normal return (with the given boolean outcome, if any) establishes p.
-func (x *rx) summary(hs *wscope, p wprop, outcome *bool, depth int) bool {
-	w := hs.g.Path(cfgq.Query{From: hs.g.Entry(),
-		Avoid:     func(n ast.Node) bool { return x.nodeHas(hs, p, n, depth) },
-		AvoidEdge: func(b *cfg.Block, s int) bool { return x.edgeHas(hs, p, b, s, depth) },
-		TargetExit: func(b *cfg.Block, k cfgq.ExitKind) bool {
-			if !c07.NormalExit(b, k) {
-				return false
-			}
-			if outcome == nil {
-				return true
-			}
-			if len(b.Nodes) == 0 {
-				return false
-			}
-			ret, ok := b.Nodes[len(b.Nodes)-1].(*ast.ReturnStmt)
-			if !ok || len(ret.Results) != 1 {
-				return false
-			}
-			if tv, ok := x.info.Types[ret.Results[0]]; ok && tv.Value != nil {
-				return (tv.Value.String() == "true") == *outcome
-			}
-			x.opaque = true // a computed outcome: not followed
-			return true
-		}})
-	return w == nil
-}
-
-type wsite struct {
-	sc *wscope
-	p  cfgq.Point
-}
-
-// sites lists the nodes accepted by direct in sc and in the helpers that sc hands the element to.
-func (x *rx) sites(sc *wscope, direct func(sc *wscope, n ast.Node) bool, depth int) []wsite {
-	var out []wsite
-	for _, p := range sc.g.Points(func(n ast.Node) bool { return c07.Within(n, sc.root) }) {
-		if direct(sc, p.Node()) {
-			out = append(out, wsite{sc, p})
-		}
-		if depth < maxFollow {
-			for _, call := range cfgq.ExecCalls(p.Node()) {
-				if hs := x.sub(sc, call); hs != nil {
-					out = append(out, x.sites(hs, direct, depth+1)...)
-				}
-			}
-		}
-	}
-	return out
-}
-
-// verdict records a path-query result; a failure while some helper taking the element could not be followed is
-// UNDECIDED, not a violation.
-func (x *rx) verdict(rule, key string, pos token.Pos, w []string, detail string) {
-	if w != nil && x.opaque {
-		x.c.Undecidedf(rule, key, pos, "not established, but a helper that is handed the element could not be followed: %s", detail)
-		return
-	}
-	x.c.Check(rule, key, pos, w == nil, detail, w...)
-}
-
 func (x *rx) writer() {
 	fn := x.fn["writer"]
 	g := x.g("writer")
@@ -701,7 +485,12 @@ func (x *rx) writer() {
 			if replace {
 				variant = "replace"
 			}
-			x.c.Check("R2.restore-send", "writer/args:"+variant, call.Pos(), okArgs, "RESTORE must be sent as (key, pttl, value[, REPLACE]) of the element taken from keyChan; found `"+x.c.Src(call)+"`: the key is restored under another name / with another TTL or payload")
+			if !okArgs && len(call.Args) >= 4 && x.viaLocal(call.Args[1:4]) {
+				x.opaque = true // the rules on ele.pttl below do not see a value carried in a local
+				x.c.Undecidedf("R2.restore-send", "writer/args:"+variant, call.Pos(), "an argument of `%s` is carried in a local variable: not followed", x.c.Src(call))
+			} else {
+				x.c.Check("R2.restore-send", "writer/args:"+variant, call.Pos(), okArgs, "RESTORE must be sent as (key, pttl, value[, REPLACE]) of the element taken from keyChan; found `"+x.c.Src(call)+"`: the key is restored under another name / with another TTL or payload")
+			}
 			if !replace {
 				sg := st.sc.g
 				tn := st.p.Node()
@@ -744,7 +533,11 @@ func (x *rx) writer() {
 			}
 			e := st.sc.ele
 			okArgs := x.eleField(call.Args[1], e, "key") && x.eleField(call.Args[2], e, "value") && x.eleField(call.Args[3], e, "pttl") && x.eleField(call.Args[4], e, "db")
-			x.c.Check("R2.bigkey", "writer/args", call.Pos(), okArgs, "RestoreBigkey must be given (key, value, pttl, db) of this element in parameter order; found `"+x.c.Src(call)+"`")
+			if !okArgs && x.viaLocal(call.Args[1:5]) {
+				x.c.Undecidedf("R2.bigkey", "writer/args", call.Pos(), "an argument of `%s` is carried in a local variable: not followed", x.c.Src(call))
+			} else {
+				x.c.Check("R2.bigkey", "writer/args", call.Pos(), okArgs, "RestoreBigkey must be given (key, value, pttl, db) of this element in parameter order; found `"+x.c.Src(call)+"`")
+			}
 			sep := x.field(call.Args[0]) != "" && len(conns) > 0 && x.field(call.Args[0]) != conns[0]
 			x.c.Check("R2.bigkey", "writer/own-connection", call.Pos(), sep, "big keys must use a connection other than the pipelined one: RestoreBigkey's Do() would consume the pending RESTORE replies that receiver is waiting for, and receiver blocks forever")
 			if st.sc == top {
